@@ -179,3 +179,80 @@ func (c *Ctx) c03Typed(n int) {
 		}
 	}
 }
+
+// hyperlinks: sequences of SetCellHyperLink (external, location, removal, with and without display/tooltip) on a few
+// cells; GetCellHyperLink of every cell reports the last link written to it, in memory and after save+open
+func (c *Ctx) c03Hyperlinks(n int) {
+	const sh = "Sheet1"
+	cells := []string{"A1", "B2", "C3"}
+	type hl struct {
+		Cell   string `json:"cell"`
+		Kind   string `json:"kind"`
+		Target string `json:"target"`
+		Opts   bool   `json:"display_and_tooltip"`
+	}
+	for i := 0; i < n; i++ {
+		var seq []hl
+		for k := 2 + c.Rng.Intn(5); k > 0; k-- {
+			h := hl{Cell: cells[c.Rng.Intn(len(cells))], Opts: c.Rng.Intn(3) == 0}
+			switch c.Rng.Intn(5) {
+			case 0:
+				h.Kind = "None"
+			case 1, 2:
+				h.Kind, h.Target = "External", fmt.Sprintf("https://example.com/%d?a=1&b=2", c.Rng.Intn(50))
+			default:
+				h.Kind, h.Target = "Location", fmt.Sprintf("Sheet1!D%d", 1+c.Rng.Intn(50))
+			}
+			seq = append(seq, h)
+		}
+		desc := map[string]interface{}{"SetCellHyperLink_calls": seq}
+		c.guard("C03_no_panic", desc, func() {
+			f := excelize.NewFile()
+			defer f.Close()
+			want := map[string]string{}
+			for _, h := range seq {
+				var err error
+				if h.Opts && h.Kind != "None" {
+					d, t := "shown", "tip"
+					err = f.SetCellHyperLink(sh, h.Cell, h.Target, h.Kind, excelize.HyperlinkOpts{Display: &d, Tooltip: &t})
+				} else {
+					err = f.SetCellHyperLink(sh, h.Cell, h.Target, h.Kind)
+				}
+				if err != nil {
+					c.Fail("oracle", "C03_last_writer_wins", desc, fmt.Sprintf("SetCellHyperLink(%s, %q, %s) rejected: %v", h.Cell, h.Target, h.Kind, err), "")
+					return
+				}
+				if h.Kind == "None" {
+					delete(want, h.Cell)
+				} else {
+					want[h.Cell] = h.Target
+				}
+			}
+			c.Count("hyperlinks", len(seq) > 2, fmt.Sprint(seq))
+			check := func(stage string, g *excelize.File) bool {
+				for _, cell := range cells {
+					ok, target, err := g.GetCellHyperLink(sh, cell)
+					w, has := want[cell]
+					if err != nil || ok != has || (has && target != w) {
+						c.Fail("oracle", "C03_last_writer_wins", desc, fmt.Sprintf("%s: GetCellHyperLink(%s) = (%v, %q, %v); the last link written to the cell is (%v, %q)", stage, cell, ok, target, err, has, w), "")
+						return false
+					}
+				}
+				return true
+			}
+			if !check("in memory", f) {
+				return
+			}
+			g, err := reopen(f)
+			if err != nil {
+				c.Fail("oracle", "C03_last_writer_wins", desc, "save/open failed: "+err.Error(), "")
+				return
+			}
+			defer g.Close()
+			check("after save and open", g)
+		})
+		if len(c.R.Failures) >= 3 {
+			return
+		}
+	}
+}
